@@ -6,6 +6,9 @@ for f in sorted(glob.glob("/verif/seeded/C*/*/meta.json")):
     m = json.load(open(f))
     pid, name = f.split("/")[-3], f.split("/")[-2]
     cr = m["check_result"]
+    if m.get("status", "").startswith("obsolete"):
+        rows.append(f"| {pid}/{name} | (obsolete) {m['status'][:200]} | — | — | — |")
+        continue
     mech = (m.get("mechanism") or "").replace("\n", " ").replace("|", "/")
     mech = mech[:230] + ("…" if len(mech) > 230 else "")
     how = cr.get("first_replay_signature") or ("proof/tie no longer checks (no-failing-input-found)" if cr.get("of_which_no_failing_input_found") else "-")
